@@ -185,6 +185,7 @@ type retrySpec struct {
 	Drops       bool // silently dropped acknowledgements with a ResponseTimeout configured
 	RandHist    int  // seeded random subscription histories (scenarios per config)
 	Repeat      int  // repetitions of storm workloads (schedule sampling)
+	Fuzz        int  // fully random scenarios: workload, configuration, client kind and fault plan all drawn
 }
 
 func cfgs(methods, sessions []string, always []bool) []retryParams {
@@ -278,6 +279,13 @@ func genRetry(spec retrySpec, tier string) []fw.Case {
 				for i := 0; i*per < spec.RandHist; i++ {
 					c.Mode, c.N, c.Part = "randhist", per, i
 					cs = append(cs, fw.Mk(fmt.Sprintf("randhist/%s%s/%d", cfgName(c.Cfg, c.Always, c.Chunk, c.Late), c.Client, i), c))
+				}
+			}
+			if spec.Fuzz > 0 && wn == spec.Workloads[0] && c.Client == "" && c.Cfg == spec.Configs[0].Cfg && c.Always == spec.Configs[0].Always {
+				per := 40
+				for i := 0; i*per < spec.Fuzz; i++ {
+					c.Mode, c.N, c.Part = "fuzz", per, i
+					cs = append(cs, fw.Mk(fmt.Sprintf("fuzz/%d", i), c))
 				}
 			}
 			if spec.Repeat > 0 && w.hasStorm() {
@@ -387,6 +395,10 @@ func (p retryParams) scenarios(rng *rand.Rand) []scen.Scenario {
 		// the workload brings its own cuts and a Handle/Stats storm: repetition samples schedules
 		for i := 0; i < p.N; i++ {
 			add(nil, nil, nil)
+		}
+	case "fuzz":
+		for i := 0; i < p.N; i++ {
+			out = append(out, fuzzScenario(rng))
 		}
 	case "randhist":
 		for i := 0; i < p.N; i++ {
@@ -621,7 +633,7 @@ func runRetryCase(prop string, mon monFn) func(c fw.Case, env *fw.Env) fw.Result
 				r.Detail = fmt.Sprintf("quiescent=%v stuck=%v inconcl=%q", run.Quiescent, run.Stuck, run.Inconcl)
 			}
 			if nt {
-				r.NT = append(r.NT, fw.Hash(prop, sc.Client, p.W, cfgName(sc.Cfg, sc.AlwaysResub, sc.Chunk, sc.LateWriteOK), a.FaultShape(), sc.SteerAt, sc.SteerConn, fmt.Sprint(sc.SteerSteps)))
+				r.NT = append(r.NT, fw.Hash(prop, sc.Client, p.W, cfgName(sc.Cfg, sc.AlwaysResub, sc.Chunk, sc.LateWriteOK), a.FaultShape(), sc.SteerAt, sc.SteerConn, fmt.Sprint(sc.SteerSteps), stepsKey(&sc)))
 			}
 			if r.Sample == nil && nt {
 				r.Sample = map[string]interface{}{"workload": p.W, "cfg": cfgName(sc.Cfg, sc.AlwaysResub, sc.Chunk, sc.LateWriteOK), "faults_planned": fmt.Sprint(sc.Faults), "faults_fired": a.FaultShape(),
@@ -644,4 +656,168 @@ func scale(tier string, quick, thorough int) int {
 		return thorough
 	}
 	return quick
+}
+
+func stepsKey(sc *scen.Scenario) string {
+	var b strings.Builder
+	for _, l := range [][]scen.Step{sc.Pre, sc.Steps} {
+		for _, s := range l {
+			b.WriteString(s.String())
+			if s.Wait {
+				b.WriteString("!")
+			}
+			b.WriteString(";")
+		}
+		b.WriteString("|")
+	}
+	return b.String()
+}
+
+// fuzzScenario draws everything: a workload mixing publishes of all QoS levels (some with caller-set id and
+// flags), subscribe/unsubscribe calls over a small filter set, handler (re)registration, inbound messages
+// (pushed behind CONNACK and later), idle cuts and outages; the broker configuration, resubscribe policy,
+// transport behaviour and client kind; and a fault plan with cuts, refusals, silent CONNACKs, dial failures
+// and (with a response timeout configured) dropped acknowledgements.
+func fuzzScenario(rng *rand.Rand) scen.Scenario {
+	fl := []string{"a", "b", "c", "e/+", "f/#"}
+	tag := 0
+	hn := 0
+	echo := rng.Intn(7) == 0
+	mkReq := func() scen.Step {
+		switch x := rng.Intn(10); {
+		case x < 6:
+			tag++
+			st := scen.Step{Op: "pub", QoS: byte(rng.Intn(3)), Tag: fmt.Sprintf("p%d", tag), Wait: rng.Intn(3) == 0}
+			if rng.Intn(3) == 0 {
+				st.QoS = 2
+			}
+			if rng.Intn(10) == 0 {
+				st.Dup, st.Retain = rng.Intn(2) == 0, rng.Intn(2) == 0
+				if st.QoS > 0 && rng.Intn(2) == 0 {
+					st.ID = uint16(100 + tag)
+				}
+			}
+			return st
+		case x < 8:
+			k := 1 + rng.Intn(2)
+			var subs []scen.SubSpec
+			for i := 0; i < k; i++ {
+				subs = append(subs, ss(fl[rng.Intn(len(fl))], byte(rng.Intn(3))))
+			}
+			return scen.Step{Op: "sub", Subs: subs, Wait: rng.Intn(3) == 0}
+		default:
+			f := []string{fl[rng.Intn(len(fl))]}
+			if rng.Intn(3) == 0 {
+				f = append(f, fl[rng.Intn(len(fl))])
+			}
+			return scen.Step{Op: "unsub", Filters: f, Wait: rng.Intn(3) == 0}
+		}
+	}
+	var sc scen.Scenario
+	if rng.Intn(4) != 0 {
+		hn++
+		sc.Pre = append(sc.Pre, handle(hn))
+	}
+	for i := rng.Intn(3); i > 0; i-- {
+		st := mkReq()
+		st.Wait = false
+		sc.Pre = append(sc.Pre, st)
+	}
+	if echo {
+		if hn == 0 {
+			hn++
+			sc.Pre = append(sc.Pre, handle(hn))
+		}
+		sc.Steps = append(sc.Steps, subw(ss("t/#", 2)))
+	}
+	down := false
+	in := 0
+	for i, n := 0, 3+rng.Intn(10); i < n; i++ {
+		var st scen.Step
+		switch x := rng.Intn(20); {
+		case x < 12:
+			st = mkReq()
+		case x < 14 && !down:
+			in++
+			st = inj(fmt.Sprintf("i%d", in), byte(rng.Intn(3)))
+		case x < 15:
+			hn++
+			st = handle(hn)
+		case x < 17 && !down:
+			st = op("cut")
+		case x < 18:
+			if down {
+				st = op("up")
+			} else {
+				st = op("down")
+			}
+			down = !down
+		case x < 19:
+			st = scen.Step{Op: "sleep", Ms: 1 + rng.Intn(3)}
+		default:
+			st = mkReq()
+		}
+		if down {
+			st.Wait = false
+		}
+		sc.Steps = append(sc.Steps, st)
+	}
+	if down {
+		sc.Steps = append(sc.Steps, op("up"))
+	}
+	tag++
+	sc.Steps = append(sc.Steps, pub(1, fmt.Sprintf("p%d", tag)))
+	for c := rng.Intn(3); c > 0; c-- {
+		var ms []scen.InMsg
+		for k := rng.Intn(3); k > 0; k-- {
+			in++
+			ms = append(ms, scen.InMsg{Tag: fmt.Sprintf("m%d", in), QoS: byte(rng.Intn(3))})
+		}
+		sc.OnConnect = append(sc.OnConnect, ms)
+	}
+	// configuration
+	sc.Cfg = scen.BrokerCfg{Method: allMethods[rng.Intn(len(allMethods))], Session: []string{"keep", "lose"}[rng.Intn(2)], Echo: echo}
+	sc.AlwaysResub = rng.Intn(4) == 0
+	sc.Chunk = []int{0, 0, 1, 3}[rng.Intn(4)]
+	sc.LateWriteOK = rng.Intn(4) == 0
+	sc.SlowReturn = []int{0, 0, 2}[rng.Intn(3)]
+	sc.Client = []string{"reconnect", "reconnect", "reconnect", "retry", "retry-retryfirst", "retry-chaotic"}[rng.Intn(6)]
+	sc.SlowActive = rng.Intn(8) == 0
+	// fault plan
+	w := workload{Pre: sc.Pre, Steps: sc.Steps}
+	n := w.reqPackets()
+	drops := rng.Intn(4) == 0
+	used := map[int]bool{}
+	for j := rng.Intn(6); j > 0; j-- {
+		at := 1 + rng.Intn(n+4)
+		if used[at] {
+			continue
+		}
+		used[at] = true
+		kind := scen.CutKinds[rng.Intn(4)]
+		switch rng.Intn(12) {
+		case 0:
+			kind = fmt.Sprintf("refuse:%d", 1+rng.Intn(5))
+		case 1:
+			kind = scen.NoConnack
+		case 2:
+			kind = fmt.Sprintf("refuseopen:%d", 1+rng.Intn(5))
+		case 3, 4:
+			if drops {
+				kind = scen.DropResp
+			}
+		}
+		if kind == scen.NoConnack {
+			sc.TimeoutMs = 25
+		}
+		sc.Faults = append(sc.Faults, scen.Fault{At: at, Kind: kind})
+	}
+	for j := rng.Intn(3); j > 0 && rng.Intn(2) == 0; j-- {
+		sc.DialFail = append(sc.DialFail, 1+rng.Intn(6))
+	}
+	if drops {
+		sc.RespMs, sc.TimeoutMs = 8, 40
+	}
+	sc.WaitBaseMs, sc.WaitMaxMs = 1, []int{1, 2, 4}[rng.Intn(3)]
+	return sc
 }
